@@ -32,6 +32,7 @@ type Expect struct {
 	Counts  map[string]int
 	Tainted bool
 	Missing bool // getter must not exist
+	Bool    *bool // expected boolean answer (IsTaggedBy)
 }
 
 func depM(d probe.DepSpec) ref.DepM {
@@ -183,7 +184,16 @@ func RunModel(conf *cfg.Config, ops []probe.Op, env map[string]string) []Expect 
 			if err == nil && s.Type != nil && !it.Assignable(v, *s.Type) {
 				it.Unknown = "dynamic type differs from the declared getter type"
 			}
-		case "circular", "api", "counts", "istagged":
+		case "istagged":
+			e.Judged = true
+			b := false
+			if sv := conf.Service(op.Name); sv != nil && !sv.IsTodo() {
+				for _, t := range sv.Tags {
+					b = b || t.Name == op.Val
+				}
+			}
+			e.Bool = &b
+		case "circular", "api", "counts":
 			e.Judged = true
 		case "overrideparam":
 			it.OverrideParam(op.Name, depM(op.Deps[0]))
@@ -364,10 +374,19 @@ func CompareHistory(u *probe.Unit, exp []Expect, skipTainted bool) (mm []Mismatc
 				}
 				text = strings.ReplaceAll(r.Err, e.Err.Token, "")
 			}
+			for _, s := range e.Err.Not {
+				if strings.Contains(text, s) {
+					mm = append(mm, Mismatch{i, "error-text", fmt.Sprintf("%s: error %q contains %q although another message was given (%s)", label, r.Err, s, e.Err.Why)})
+				}
+			}
 			for _, s := range e.Err.Contains {
 				if !strings.Contains(text, s) {
 					mm = append(mm, Mismatch{i, "error-text", fmt.Sprintf("%s: error %q does not mention %q (%s)", label, r.Err, s, e.Err.Why)})
 				}
+			}
+		} else if op.Op == "istagged" && e.Bool != nil {
+			if r.Bool == nil || *r.Bool != *e.Bool {
+				mm = append(mm, Mismatch{i, "is-tagged-by", fmt.Sprintf("%s %s: IsTaggedBy answered %v, expected %v", label, op.Val, r.Bool != nil && *r.Bool, *e.Bool)})
 			}
 		} else if op.Op == "new" || op.Op == "circular" || op.Op == "overrideparam" || op.Op == "overridesvc" || op.Op == "setenv" || op.Op == "unsetenv" || op.Op == "api" || op.Op == "istagged" {
 			if r.Err != "" || !r.OK {
